@@ -891,6 +891,23 @@ pub fn c08_concurrent_programs() -> Vec<Arc<Prog>> {
         Some(1),
         Some(1),
     ));
+    // the same with a writer that rotates the memtable first: when the write-ahead-log append of
+    // its k-th put fails, an immutable memtable is waiting for the compaction thread, which is
+    // inside the manual compaction (whoever stops waiting for it now pulls the request away from
+    // under the thread)
+    for k in 1..=3u32 {
+        let mut q = (*pt(
+            &format!("wal-write-{}-of-rotating-T2-fails once: compact||w+w+w+w", k),
+            l0.clone(),
+            vec![vec![Compact(None, None)], vec![Put(1, 7, 8), Put(0, 8, 8), Put(1, 9, 8), Put(0, 10, 8)]],
+            (class::WRITE, ".log"),
+            Some(1),
+            Some(1),
+        ))
+        .clone();
+        q.fault_skip = k;
+        v.push(Arc::new(q));
+    }
     for (tag, budget) in [("once", Some(1u32)), ("sticky", None)] {
         let n = |s: &str| format!("{} {}", s, tag);
         v.push(p(&n("wal-write-fails: w||w||get+get"), vec![Put(0, 1, 8)], vec![vec![Put(0, 2, 8)], vec![Put(0, 3, 8)], vec![Get(0), Get(0)]], (class::WRITE, ".log"), budget));
@@ -1017,7 +1034,7 @@ pub fn c09_fault_programs() -> Vec<Arc<Prog>> {
     .into_iter()
     .chain(l0_stop_programs())
     // a background error recorded while a manual compaction is in flight (found H15)
-    .chain(c08_concurrent_programs().into_iter().filter(|p| p.name.contains("compact||w") || p.name.contains("rotating w+w+w||compact")))
+    .chain(c08_concurrent_programs().into_iter().filter(|p| (p.name.contains("compact||w") || p.name.contains("rotating w+w+w||compact")) && !p.name.contains("half-written")))
     .collect()
 }
 
